@@ -3,7 +3,7 @@
    Quantification: every pin `p` (MaxDepth, Mode, origins, update source), every prior daemon table `d`,
    every behaviour script `s` (one behaviour per HTTP call, any length; an exhausted script behaves well).
    Trusted: the go-ipfs contract `act`/`serve` of Model/C16_Connector.v. `conn_pin` is the code with fix-S16. *)
-From V Require Import Base.Common Model.C16_Connector Model.C16_Check Proofs.C16_Connector.
+From V Require Import Base.Common Model.C16_Connector Model.C16_Check Proofs.C16_Connector Proofs.C16_Monitor.
 Open Scope Z_scope.
 
 (* a reported pin success means the daemon holds the CID in the asked mode
@@ -127,3 +127,47 @@ Example pin_trailer_is_error_now : conn_pin (mk_pin 0%N (-1) Rec 0%N None) [] [B
 Proof. reflexivity. Qed.
 Example unpin_tolerant : conn_unpin false 0%N [] [] = (ROk, [], [(CRm 0%N, PErr MNotPinned)]).
 Proof. reflexivity. Qed.
+
+(* ---- the remaining monitor codes, and the model against the monitor (Proofs/C16_Monitor.v) ---- *)
+
+(* codes 11 and 12 of a pin: already pinned as asked + well-behaved daemon => success with exactly the one pin/ls, no swarm
+   connect, table untouched; pin/update only for this pin's source and CID with unpin=false and the source recursively pinned
+   before and after; no other CID touched *)
+Theorem check_pin_sound2 p d s ob : (forall x, In x (spec_fails (OpPin p) d s ob) -> x <> 11%N /\ x <> 12%N) -> PinSpec2 p d s ob.
+Proof. exact (spec_pin_sound2 p d s ob). Qed.
+Print Assumptions check_pin_sound2.
+
+(* unpin: disabled => error, nothing sent, table untouched; a stalled pin/rm => error; not pinned + well-behaved daemon =>
+   success with exactly the one pin/rm, table untouched; no other CID touched *)
+Theorem check_unpin_sound2 c dis d s ob : spec_fails (OpUnpin c dis) d s ob = [] -> UnpinSpec2 c dis d s ob.
+Proof. exact (spec_unpin_sound2 c dis d s ob). Qed.
+Print Assumptions check_unpin_sound2.
+
+(* PinLsCid: a well-behaved daemon => no error and the truth about (c, mode asked); the table never changes *)
+Theorem check_ls_sound c depth d s ob : spec_fails (OpLs c depth) d s ob = [] -> LsSpec c depth d s ob.
+Proof. exact (spec_ls_sound c depth d s ob). Qed.
+Print Assumptions check_ls_sound.
+
+(* completeness: for every operation, pin, prior daemon table and behaviour script, and every number of swarm connects within
+   the bound (none when the first pin/ls already answers "pinned as asked": nconn_ok - swarm/connect is not modelled), the
+   model's own run raises nothing but code 14 with tag 1, the carried finding pin-update-stall-never-gives-up ... *)
+Theorem model_only_known_finding id o d s nconn : nconn_ok o d s nconn ->
+  forall f, In f (check_case (id, (o, d, s, model_obs o d s nconn))) -> snd (fst f) = 14%N /\ snd f = 1%N /\ exists p, o = OpPin p.
+Proof. exact (model_only_known_finding_l id o d s nconn). Qed.
+Print Assumptions model_only_known_finding.
+
+(* ... and when the decisive request is not a pin/update left unanswered, no code at all (code 1 included) *)
+Theorem model_passes_monitor id o d s nconn : nconn_ok o d s nconn -> no_update_stall o d s ->
+  check_case (id, (o, d, s, model_obs o d s nconn)) = [].
+Proof. exact (model_passes_monitor_l id o d s nconn). Qed.
+Print Assumptions model_passes_monitor.
+
+(* non-vacuity: a pin by update with two swarm connects passes; the same run reported with the source unpinned is rejected
+   (code 12); the finding shape raises exactly code 14 with tag 1 *)
+Example c16_monitor_example :
+  let p := mk_pin 0%N (-1) Rec 5%N (Some 1%N) in let d := [(1%N, Rec)] in
+  nconn_ok (OpPin p) d [] 2%N /\ no_update_stall (OpPin p) d [] /\
+  model_obs (OpPin p) d [] 2%N = Obs ROk StBug [(0%N, Rec); (1%N, Rec)] [CLs 0%N Rec; CLs 1%N Rec; CUpdate 1%N 0%N false] 2%N /\
+  check_case (7%N, (OpPin p, d, [], Obs ROk StBug [(0%N, Rec)] [CLs 0%N Rec; CLs 1%N Rec; CUpdate 1%N 0%N false] 2%N)) = [(7, 1, 0); (7, 12, 0)]%N /\
+  check_case (7%N, (OpPin p, d, [BOk 0%N false; BOk 0%N false; BStall], model_obs (OpPin p) d [BOk 0%N false; BOk 0%N false; BStall] 0%N)) = [(7, 14, 1)]%N.
+Proof. cbv zeta. split; [split; [vm_compute; discriminate|intros H; discriminate H]|]. repeat split; vm_compute; reflexivity. Qed.
